@@ -30,6 +30,8 @@ extern "C"
     // contracts: mode 0 (default) = the intercepted function returns an arbitrary value of its contract; mode 1 = the smallest one
     // (used when the random source is irrelevant to the clause under test). name: "udist"
     void        sbv_set_contract(const char* name, int mode);
+    // thread model: a visible operation without effect (lets other threads of the interpreted program run here); native: sched_yield
+    void        sbv_yield(void);
     // fork-free helpers
     int         sbv_ite(int cond, int a, int b);
 #ifdef __cplusplus
